@@ -1,4 +1,4 @@
-// Shim world for the WHOLE util::get_line_count (Engine F; C17): a scripted file of up to three chunks of one to three bytes,
+// Shim world for the WHOLE util::get_line_count and util::is_shebang (Engine F; C17): a scripted file of up to three chunks of one to three bytes,
 // which either cannot be opened, or whose read fails when chunk FAIL_AT (or, with FAIL_AT == number of chunks, the end of file) is due.
 // Like the real BufReader, fill_buf hands out an empty slice only at the end of the file.
 pub static mut OPEN_FAILS: bool = false;
@@ -11,13 +11,14 @@ pub struct PathBuf;
 impl DirEntry { pub fn path(&self) -> PathBuf { PathBuf } }
 pub struct File { n: usize, lens: [usize; 3], data: [[u8; 3]; 3], fail_at: usize }
 impl File {
-    pub fn open(_p: PathBuf) -> Result<File, ()> {
+    pub fn open<P>(_p: P) -> Result<File, ()> {
         unsafe { if OPEN_FAILS { Err(()) } else { Ok(File { n: NCHUNKS, lens: LENS, data: DATA, fail_at: FAIL_AT }) } }
     }
 }
 pub struct BufReader { f: File, chunk: usize, pos: usize }
 impl BufReader {
     pub fn with_capacity(_c: usize, f: File) -> BufReader { BufReader { f, chunk: 0, pos: 0 } }
+    pub fn new(f: File) -> BufReader { BufReader { f, chunk: 0, pos: 0 } }
     pub fn fill_buf(&mut self) -> Result<&[u8], ()> {
         if self.chunk < self.f.n && self.pos >= self.f.lens[self.chunk] { self.chunk += 1; self.pos = 0; }
         if self.chunk == self.f.fail_at { return Err(()); }
@@ -25,5 +26,17 @@ impl BufReader {
         Ok(&self.f.data[self.chunk][self.pos..self.f.lens[self.chunk]])
     }
     pub fn consume(&mut self, n: usize) { self.pos += n; }
+    // like std: fills the whole buffer or fails (a read error, or the end of the file before the buffer is full)
+    pub fn read_exact(&mut self, out: &mut [u8]) -> Result<(), ()> {
+        let mut k = 0;
+        while k < out.len() {
+            let b = match self.fill_buf() { Ok(b) => b, Err(e) => return Err(e) };
+            if b.is_empty() { return Err(()); }
+            out[k] = b[0];
+            k += 1;
+            self.consume(1);
+        }
+        Ok(())
+    }
 }
 pub mod bytecount { pub fn count(buf: &[u8], b: u8) -> usize { let mut c = 0; let mut i = 0; while i < buf.len() { if buf[i] == b { c += 1; } i += 1; } c } }
